@@ -18,9 +18,9 @@ func init() {
 	register(&Prop{ID: "C08", Run: runC08,
 		Rule: "for every wire limit the statement names, the values L-1, L, L+1, L+2, every 2^k-1 / 2^k / 2^k+1 up to the Go field's width and the wrap points 256/257 and 65536/65537, crossed with the position in the enclosing list (first / middle / last) and the rest of the packet at its tagged base. Above the limit Marshal must fail with no bytes; at or below it must succeed with exactly the reference encoding (so every count/length/bounded field represents the content). Non-trivial = values at or above L-1",
 		Assumptions: []string{
-			"silent masking of scalar fields wider than their wire width (SLI First/Number/Picture, TWCC ReferenceTime, run length, CCFB offset/ECN, XR T/ToH) is not among the limits the statement lists and is not judged; the 16-bit length field is judged for every type whose size is unbounded (space length-field)",
+			"the quantifier says 'for every field that has' a wire limit: besides the limits the statement lists, every scalar field narrower on the wire than in Go (space over-width-fields) and the 16-bit length field of every type whose size is unbounded (space length-field) are judged; the pinned tree masks the over-wide scalars silently (known findings)",
 		},
-		BoundsQuick:    "counts {0,1,30,31,32,33,255,256,257}; texts {0,1,254,255,256,257,511,512}; TotalLost all 2^k-1,2^k,2^k+1 for k<=32 at 3 positions in SR and RR; REMB SSRCs {254..257,512}; CCFB metric blocks {16383..16386,32768} at 3 block positions; APP names 0..8 octets; TWCC delta boundary ticks at every position of lists of <= 3",
+		BoundsQuick:    "over-width: every bounded scalar leaf of every base value of D at its first/middle/last occurrence x {1<<width, type max}, chunk encoders; length field: sizes 262136..524316 for SR/RR/XR/FIR/SDES/CCFB with exact 262144 probes; counts {0,1,30,31,32,33,255,256,257}; texts {0,1,254,255,256,257,511,512}; TotalLost all 2^k-1,2^k,2^k+1 for k<=32 at 3 positions in SR and RR; REMB SSRCs {254..257,512}; CCFB metric blocks {16383..16386,32768} at 3 block positions; APP names 0..8 octets; TWCC delta boundary ticks at every position of lists of <= 3",
 		BoundsThorough: "adds counts/texts 65535,65536,65537 and CCFB 65535..65537",
 	})
 }
